@@ -33,7 +33,7 @@ ASSUMPTIONS = {'C14': ['probability tolerance 1e-12 + 1e-9*p with unsert=0 and 2
                        'chi-square fallback alarms only below p = 1e-12 (deterministic for a given seed)',
                        'tensors bounded by 300 entries so that every multi-index is visited']}
 EXPECTED_PROBES = {'C14': ['steer_sample_paths', 'steer_square_paths', 'zero_probability_paths', 'unique_restart_path', 'unique_impossible_rejected',
-                           'lhs_checked', 'sample_tt_checked', 'chi2_runs', 'adversarial_runs', 'sample_func_runs', 'generator_object_real']}
+                           'lhs_checked', 'sample_tt_checked', 'chi2_runs', 'adversarial_runs', 'sample_func_runs', 'generator_object_real', 'highdim_runs']}
 BUDGET = {'C14': {'quick': {'n': 5000, 'max_s': 150, 'chunk': 10}, 'thorough': {'n': 250000, 'max_s': 3000, 'chunk': 50}}}
 UNSERT = 1.E-10
 
@@ -199,11 +199,27 @@ def gen_shape(rng, max_entries=300):
 
 
 def generate(rng, prop, tier):
-    mode = rng.choice(['steer_sample', 'steer_sample', 'steer_square', 'steer_square', 'adversarial', 'adversarial', 'adversarial', 'chi2'])
+    mode = rng.choice(['steer_sample', 'steer_sample', 'steer_square', 'steer_square', 'adversarial', 'adversarial', 'adversarial', 'chi2', 'highdim'])
     if tier == 'quick' and mode == 'chi2' and rng.random() < 0.6:
         mode = 'adversarial'
     sc = {'engine': NAME, 'mode': mode, 'n': gen_shape(rng), 'r': rng.randint(1, 4), 'tseed': rng.randrange(1 << 30),
           'pseed': rng.randrange(1 << 30)}
+    if mode == 'highdim':
+        # many dimensions (the number of entries exceeds 2^63 in some): shape / bounds / uniqueness clauses only
+        d = rng.choice([12, 30, 62, 63, 64, 65, 70])
+        sc['n'] = [rng.choice([2, 2, 2, 3, 4]) for _ in range(d)]
+        if rng.random() < 0.3:
+            sc['n'] = [rng.choice([2, 4, 10])] * d
+        sc['r'] = rng.randint(1, 2)
+        sc['mode'] = 'adversarial'
+        sc['fn'] = rng.choice(['sample', 'sample_square', 'sample_square_unique', 'sample_square_unique', 'sample_lhs', 'sample_rand', 'sample_tt'])
+        sc['policy'] = rng.choice(['prng', 'prng', 'max', 'min'])
+        sc['m'] = rng.choice([1, 2, 3, 5])
+        sc['tkind'] = 'pos' if sc['fn'] == 'sample' else 'normal'
+        sc['rtt'] = rng.randint(1, 2)
+        sc['use'] = rng.choice(['simgen', 'int', 'generator'])
+        sc['highdim'] = True
+        return sc
     if mode == 'steer_sample':
         sc['tkind'] = rng.choice(['pos', 'pos', 'sq', 'zeros', 'delta', 'sqdiff'])
         sc['unsert'] = rng.choice([0.0, 0.0, UNSERT])
@@ -470,6 +486,8 @@ def make_seed(sc, stats):
 def execute_adversarial(sc):
     V = []
     stats = {'probe.adversarial_runs': 1}
+    if sc.get('highdim'):
+        stats['probe.highdim_runs'] = 1
     fn = sc['fn']
     n = sc['n']
     m = sc['m']
@@ -489,8 +507,11 @@ def execute_adversarial(sc):
             h.append(np.asarray(I).tobytes())
         elif fn == 'sample_square_unique':
             Y = build_tensor(sc)
-            T = tt_full(Y)
-            m2 = min(m, max(1, int(np.count_nonzero(T)) // 3))
+            if sc.get('highdim'):
+                m2 = m
+            else:
+                T = tt_full(Y)
+                m2 = min(m, max(1, int(np.count_nonzero(T)) // 3))
             if sg is not None and sc['policy'] != 'prng':
                 # heavy repeats in the first attempt(s), proper draws afterwards: forces the doubling / restart path
                 inner = adversarial_policy(sc['policy'], sc['pseed'])
